@@ -212,7 +212,10 @@ class Evaluator:
             if D.is_c(idx.x):
                 i = int_signed(idx.x)
                 if not t.in_range(i):
-                    self.ill("range", f"index {i} outside {t}", node)
+                    if idx.static:
+                        self.ill("range", f"index {i} outside {t}", node)
+                    self.env.runtime_error(True, f"index {i} out of range for {t}")
+                    i = t.right
                 p = t.pos(i)
                 return V(STD, D.v_extract(base.x, p, p, t.width))
             # run-time index: ite chain over positions
@@ -228,7 +231,10 @@ class Evaluator:
             if D.is_c(idx.x):
                 i = int_signed(idx.x)
                 if not (t.lo <= i <= t.hi):
-                    self.ill("range", f"index {i} outside array {t}", node)
+                    if idx.static:
+                        self.ill("range", f"index {i} outside array {t}", node)
+                    self.env.runtime_error(True, f"index {i} out of range for {t}")
+                    i = t.lo
                 return base.x[i - t.lo]
             self.env.runtime_error(D.b_or(D.v_slt(idx.x, t.lo & D.mask(INT_W), INT_W), D.v_slt(t.hi & D.mask(INT_W), idx.x, INT_W)),
                                    f"index out of range for {t}")
